@@ -472,6 +472,18 @@ def ledger_sweep(shard, nshards, n):
             table = conn.tables[tname_]
             stmts = [('*', select(A.Asterisk(), from_=A.Table(tname_)))]
             stmts.append(('all', select([(col(c), None) for c in table.columns], from_=A.Table(tname_))))
+            if tname_ in ('postings', 'entries'):
+                # the functions evaluated on the row context, over constant and over nullable column arguments
+                nullable = [c for c in ('payee', 'narration', 'cost_currency', 'account') if c in table.columns]
+                fts = []
+                for fn in sorted(POSTINGS_ONLY):
+                    if fn in ('meta', 'any_meta') and tname_ == 'entries':
+                        continue
+                    for cn in nullable:
+                        fts.append((F(fn, col(cn)), f'{fn}_{cn}'))
+                    fts.append((F(fn, C('memo')), f'{fn}_const'))
+                for ft in fts:
+                    stmts.append((f'ctxfunc:{ft[1]}', select([ft], from_=A.Table(tname_))))
             if tname_ == 'postings':
                 # rows synthesised by the FROM qualifiers (summarisation / transfer / conversion entries: their
                 # postings carry no metadata) must honour the announced column types too
@@ -484,6 +496,9 @@ def ledger_sweep(shard, nshards, n):
                 try:
                     cur = conn.execute(stmt)
                     got = cur.fetchall()
+                except (beanquery.Error, re.error) if tag.startswith('ctxfunc') else () as e:
+                    acc.count('rejected_or_data_error')       # not applicable to this table / the cell is not a valid pattern
+                    continue
                 except Exception as e:
                     acc.violation(f'type-error:{tb_fingerprint(e)}', f'SELECT {tag} FROM #{tname_} on ledger {list(names)!r} raised {type(e).__name__}: {e}',
                                   {'kind': 'ledger', 'names': list(names), 'table': tname_, 'tag': tag})
